@@ -195,11 +195,11 @@ Definition imp_session (s : state) (x : session) : res state :=
         <| sess_alloc ::= fun i => i ∪ {[ (ss_sub x, ss_addr x, ss_id x) ]} |>
         <| sess_q ::= fun i => i ∪ {[ (ss_inactive_at x, ss_id x) ]} |>).
 (* swap: SetSwap under SwapKey(BytesToHash(TxHash)): left-padded / truncated to 32 bytes *)
-Definition bytes_to_hash (b : list N) : list N :=
+Definition swap_key_of (b : list N) : list N :=
   let n := length b in
   if (32 <? n)%nat then drop (n - 32) b else replicate (32 - n) 0%N ++ b.
 Definition imp_swap (s : state) (w : swap) : res state :=
-  Ok (s <| swaps ::= fun m => <[bytes_to_hash (sw_hash w) := w]> m |>).
+  Ok (s <| swaps ::= fun m => <[swap_key_of (sw_hash w) := w]> m |>).
 (* custommint: SetInflation under the timestamp *)
 Definition imp_inflation (s : state) (i : inflation) : res state :=
   Ok (s <| inflations ::= fun m => <[inf_ts i := i]> m |>).
